@@ -20,7 +20,7 @@ ID = "C06"
 LEVEL = "fault_enumeration"
 LEVEL_TEXT = 'Fault enumeration relative to each explored run: every split iteration k reached by the run is a stop/restart fault (zero-iteration restart, one-iteration restart, reduced maxcor, chains up to 4), over a seeded swarm of problems and configurations. Complete per run, sampled over runs - the right level for a property quantified over all split points of all histories.'
 LEVEL_NOTE = "Trusts the uninterrupted run of the same code as the reference; 'up to rounding' is calibrated by restarts from rounding-perturbed checkpoints (DESIGN 7.2); NumPy/SciPy/pickle are real and trusted."
-TECHNIQUE = 'deterministic simulation: planned-stop/restart fault at every split, reference = uninterrupted run'
+TECHNIQUE = 'deterministic simulation: planned-stop/restart fault at every split (also through the target-already-met return, with reduced maxcor, in chains), reference = uninterrupted run'
 DESIGN_REF = 'DESIGN.md 4.4, 7.2'
 BUDGET = {
     "quick": {"plans": 3000, "wall": 90, "chunk": 4},
